@@ -182,7 +182,14 @@ def frozen_shortcut(spec, v, depth=0):
   if depth > 8:
     return False
   if spec.frozen:
-    return MISSING != v and not strict_same(v, spec.default)
+    # equal by `==` but not the frozen value itself (another type); a frozen
+    # spec that takes a value which is not even `==` to its default is a
+    # different mechanism and must not be filed under the shortcut.
+    try:
+      loosely_equal = bool(v == spec.default)
+    except Exception:  # pylint: disable=broad-except
+      loosely_equal = False
+    return MISSING != v and loosely_equal and not strict_same(v, spec.default)
   if isinstance(spec, T.List) and isinstance(v, list):
     return any(frozen_shortcut(spec.element.value, x, depth + 1) for x in v)
   if isinstance(spec, T.Tuple) and isinstance(v, tuple):
